@@ -6,6 +6,24 @@ use crate::util::splitmix;
 use serde_json::{json, Value};
 
 pub const NONE: u8 = 255;
+/// base pattern in which every field holds the same value (every byte 0x5a): arguments equal to each other
+pub const EQUAL: u8 = 9;
+/// override indices that are not argument fields: explicit sizes for the size-sweep programs
+pub const SZ: u8 = 200;
+pub const SX: u8 = 201;
+
+/// characters a normalising helper would touch, appended (index < 8) or prepended (index >= 8) to generated strings
+pub const TAILS: [&str; 8] = ["", " ", "\n", "  ", "\t", "\r\n", "\0", " \n "];
+/// a string of `n` characters cycling through `base`, with tail/head `t` (see TAILS)
+pub fn gen_string(base: &str, n: usize, t: usize) -> String {
+    let body: String = if base.is_empty() { String::new() } else { base.chars().cycle().take(n).collect() };
+    let x = TAILS[t % 8];
+    if t % 16 >= 8 {
+        format!("{}{}", x, body)
+    } else {
+        format!("{}{}", body, x)
+    }
+}
 
 #[derive(Clone, Copy, PartialEq, Eq, Hash, Debug)]
 pub struct Fill {
@@ -26,6 +44,14 @@ impl Fill {
         }
         panic!("Fill: more than 3 overrides");
     }
+    /// explicit size / count of a variable-size entry (override index SZ), when the program sets one
+    pub fn size(&self) -> Option<usize> {
+        self.over(SZ).map(|v| v as usize)
+    }
+    /// second size-like parameter (override index SX): second matrix dimension, string tail selector, ...
+    pub fn size2(&self) -> Option<usize> {
+        self.over(SX).map(|v| v as usize)
+    }
     fn over(&self, i: u8) -> Option<u64> {
         self.o.iter().find(|x| x.0 == i).map(|x| x.1)
     }
@@ -40,6 +66,7 @@ impl Fill {
             1 => u64::MAX,
             2 => pattern(i, 0),
             3 => pattern(i, 0x80),
+            EQUAL => 0x5a5a_5a5a_5a5a_5a5a,
             b => splitmix(((b as u64) << 8) | i as u64),
         };
         v & mask
@@ -65,6 +92,7 @@ impl Fill {
             1 => true,
             2 => i % 2 == 1,
             3 => i % 2 == 0,
+            EQUAL => true,
             b => splitmix(((b as u64) << 8) | i as u64) & 1 == 1,
         }
     }
@@ -78,6 +106,7 @@ impl Fill {
             1 => n - 1,
             2 => (i as usize + 1) % n,
             3 => (i as usize + 2) % n,
+            EQUAL => 1 % n,
             b => (splitmix(((b as u64) << 8) | i as u64) % n as u64) as usize,
         }
     }
@@ -95,6 +124,7 @@ impl Fill {
                 1 => 0xff,
                 2 => pat_byte(i, j as u8, 0),
                 3 => pat_byte(i, j as u8, 0x80),
+                EQUAL => 0x5a,
                 b => splitmix(((b as u64) << 16) | ((i as u64) << 8) | j as u64) as u8,
             };
         }
